@@ -328,6 +328,25 @@ def run_unencodable(spec, acc):
             else:
                 key = "unencodable-message-disturbed-connection" + (":format-without-encoder" if label == "format_without_encoder" else "")
             acc.violation(key, f"{kind}/{label}: before send (writes, status, attempts, state) = {b}, after = {a}", w)
+        # the same message on a client that was created but never connected: nothing to write on, and still no
+        # connection, no state change, no status notification, no exception
+        async def scenario_nc(sim, m=m):
+            sim.before = (sum(len(c.written) for c in sim.conns), list(sim.status), len(sim.attempts), sim.client.state.name)
+            await sim.call("send", m)
+            await asyncio.sleep(15.0)
+            sim.after = (sum(len(c.written) for c in sim.conns), list(sim.status), len(sim.attempts), sim.client.state.name)
+            await sim.call("close")
+        sim, stats = simgw.run_session(kind, scenario_nc)
+        acc.count("sessions")
+        acc.count("unencodable_sends_on_unconnected_client")
+        if stats["error"]:
+            acc.inconclusive_because(f"simulator: {stats['error']}")
+            continue
+        if any(e["k"] == "ret" and e["name"] == "send" and e.get("exc") for e in sim.trace):
+            acc.violation("send-raised-for-unencodable-message", f"{kind}/{label}: send() raised on a client that was never connected", w)
+        if sim.after != sim.before:
+            acc.violation("unencodable-message-disturbed-connection:never-connected-client",
+                          f"{kind}/{label}: client never connected; before send (writes, status, attempts, state) = {sim.before}, after = {sim.after}", w)
 
 
 def run_write_failure(spec, acc):
